@@ -16,6 +16,10 @@ CHECKS = {
   text="Theorems in coq/Props/C14.v: for operation sequences of EVERY length the six Node accessors refine an insertion-ordered dictionary (simulation proof by induction over the sequence); classification; set_value/get_value/is_scalar law (core-tagged nodes; the unrestricted statement is refuted by witness and listed as a known finding); remove_attributes_with_default_values is total and removes exactly type-strictly matching defaults. Model = Model/NodeOps.v, tied to yatiml/helpers.py by differential execution of ~25k operation sequences (exhaustive to length 2) inside Coq.",
   note="Trusted: Coq kernel + vm_compute; hand-written model of helpers.py validated by the correspondence run; int/float denotations via per-case oracle tables computed with PyYAML's SafeConstructor; scalar_type_to_tag regenerated from /repo. Misuse of mapping helpers on non-mappings is outside the statement.",
   technique=TECH, design='6 C14'),
+ 'C15': dict(
+  text="Theorems in coq/Props/C15.v over Model/NodeOps.v: both inverse laws (seq<->map, index<->map) for item lists of every length, stated up to the position of the key attribute and marks, under exactly the property's side conditions; short form only when the value attribute is the sole remaining key; unchanged-node lemmas for missing / wrong-kind attributes and ill-shaped items; SeasoningError for duplicate keys exactly in strict mode; dash/underscore rewriting inverse. Model tied to helpers.py by ~10k (thorough: all enumerated) transform runs evaluated inside Coq and by a docstring-derived oracle on the implementation.",
+  note="Trusted: Coq kernel + vm_compute; hand-written model of the four transforms validated by the correspondence run. 'Not of the expected kind' is read as documented in DESIGN.md (a present but non-string key attribute still raises SeasoningError).",
+  technique=TECH, design='6 C15'),
 }
 
 REASON_TODO = 'check not built yet (work in progress; DESIGN.md section 11 gives the build order)'
